@@ -41,7 +41,7 @@ def _profile(rng):
 
 
 def section_random(ctx, clauses) -> None:
-    n = ctx.scale(220, 4000)
+    n = ctx.scale(120, 3000)
     traces = []
     hist: dict = {}
     for i in range(n):
@@ -59,7 +59,7 @@ def section_random(ctx, clauses) -> None:
         if i < 2:
             ctx.sample({'labels': SC.labels_repr(trace.labels())[:1500]})
     ctx.extra.setdefault('label_histogram', {}).update({'random': hist})
-    SC.evaluate_cases(ctx, 'store_random_traces', traces)
+    return SC.CaseEval(ctx, 'store_random_traces', traces)
 
 
 def section_exhaustive(ctx, clauses) -> None:
@@ -70,7 +70,7 @@ def section_exhaustive(ctx, clauses) -> None:
         progs = list(SC.exhaustive_programs(alphabet, 3))
         if ctx.quick:
             rng = random.Random(f'{ctx.prop}-{ctx.seed}-exh-{name}')
-            progs = rng.sample(progs, 12)
+            progs = rng.sample(progs, 6)
         elif len(progs) > 700:
             rng = random.Random(f'{ctx.prop}-{ctx.seed}-exh-{name}')
             progs = rng.sample(progs, 700)
@@ -89,7 +89,7 @@ def section_exhaustive(ctx, clauses) -> None:
     ctx.extra['exhaustive_schedules'] = {
         'traces': total, 'alphabets': {k: [repr(c) for c in v] for k, v in SC.ALPHABETS.items()},
         'all_program_pairs': not ctx.quick}
-    SC.evaluate_cases(ctx, 'store_all_schedules', traces, shard=60)
+    return SC.CaseEval(ctx, 'store_all_schedules', traces, shard=40)
 
 
 def section_witnesses(ctx, clauses, witnesses) -> None:
@@ -99,7 +99,7 @@ def section_witnesses(ctx, clauses, witnesses) -> None:
         SC.report_trace(ctx, 'witness:' + name, trace, mon, clauses, {'nsess': nsess})
         traces.append(trace)
         ctx.count(('witness', name))
-    SC.evaluate_cases(ctx, 'store_witnesses', traces)
+    return SC.CaseEval(ctx, 'store_witnesses', traces)
 
 
 RULE = ('a case is one multi-session trace: 2-4 connections on the dict backend, 8-25 commands drawn '
@@ -122,9 +122,11 @@ def run(ctx) -> None:
     ctx.assumptions += ASSUMPTIONS
     ctx.check_proofs(['Store/StoreCheck'])
     clauses = SC.C01_CLAUSES
-    section_witnesses(ctx, clauses, WITNESSES)
-    section_random(ctx, clauses)
-    section_exhaustive(ctx, clauses)
+    evals = [section_witnesses(ctx, clauses, WITNESSES),
+             section_random(ctx, clauses),
+             section_exhaustive(ctx, clauses)]
+    for ev in evals:
+        ev.finish()
 
 
 def replay(ctx, obj) -> int:
